@@ -38,6 +38,7 @@ Clauses(i) ==
     [] e.k = "lmo" ->
          [ lists   |-> e.ok = 1,
            numbers |-> e.ok = 1 => (e.dn = Run(1, e.n) /\ e.same = 1),
+           length  |-> e.n \in {29, 30},
            days    |-> e.ok = 1 => \A k \in DOMAIN e.dj : InRangeJ(e.f + k - 1) => e.dj[k] = e.f + k - 1 ]
     [] e.k = "dh" ->
          [ lists     |-> e.lok = 1 /\ e.sok = 1,
